@@ -522,6 +522,10 @@ pub struct Socket<'a> {
     local_rx_dup_acks: u8,
     /// If a fast retransmit needs to occur
     pending_fast_retransmit: bool,
+    /// Set when `close()` is called in the SYN-RECEIVED state: the socket is in FIN-WAIT-1
+    /// but its SYN|ACK has not been acknowledged yet, so the SYN still occupies sequence
+    /// space (and is what gets retransmitted); the FIN follows once the SYN is acknowledged.
+    syn_unacked_in_fin_wait: bool,
 
     /// Duration for Delayed ACK. If None no ACKs will be delayed.
     ack_delay: Option<Duration>,
@@ -613,6 +617,7 @@ impl<'a> Socket<'a> {
             local_rx_last_seq: None,
             local_rx_dup_acks: 0,
             pending_fast_retransmit: false,
+            syn_unacked_in_fin_wait: false,
             ack_delay: Some(ACK_DELAY_DEFAULT),
             ack_delay_timer: AckDelayTimer::Idle,
             challenge_ack_timer: Instant::from_secs(0),
@@ -931,6 +936,7 @@ impl<'a> Socket<'a> {
         self.remote_last_ts = None;
         self.ack_delay_timer = AckDelayTimer::Idle;
         self.challenge_ack_timer = Instant::from_secs(0);
+        self.syn_unacked_in_fin_wait = false;
 
         #[cfg(feature = "async")]
         {
@@ -1095,7 +1101,11 @@ impl<'a> Socket<'a> {
             State::SynSent => self.set_state(State::Closed),
             // In the SYN-RECEIVED, ESTABLISHED and CLOSE-WAIT states the transmit half
             // of the connection is open, and needs to be explicitly closed with a FIN.
-            State::SynReceived | State::Established => self.set_state(State::FinWait1),
+            State::SynReceived => {
+                self.syn_unacked_in_fin_wait = true;
+                self.set_state(State::FinWait1)
+            }
+            State::Established => self.set_state(State::FinWait1),
             State::CloseWait => self.set_state(State::LastAck),
             // In the FIN-WAIT-1, FIN-WAIT-2, CLOSING, LAST-ACK, TIME-WAIT and CLOSED states,
             // the transmit half of the connection is already closed, and no further
@@ -1599,6 +1609,8 @@ impl<'a> Socket<'a> {
         let (sent_syn, sent_fin) = match self.state {
             // In SYN-SENT or SYN-RECEIVED, we've just sent a SYN.
             State::SynSent | State::SynReceived => (true, false),
+            // close() in SYN-RECEIVED: the SYN|ACK is still unacknowledged, the FIN not sent yet.
+            State::FinWait1 if self.syn_unacked_in_fin_wait => (true, false),
             // In FIN-WAIT-1, LAST-ACK, or CLOSING, we've just sent a FIN.
             State::FinWait1 | State::LastAck | State::Closing => (false, true),
             // In all other states we've already got acknowledgements for
@@ -2166,6 +2178,8 @@ impl<'a> Socket<'a> {
             // We've processed everything in the incoming segment, so advance the local
             // sequence number past it.
             self.local_seq_no = ack_number;
+            // Any acceptable acknowledgement covers our SYN.
+            self.syn_unacked_in_fin_wait = false;
 
             // During retransmission, if an earlier segment got lost but later was
             // successfully received, self.local_seq_no can move past self.remote_last_seq.
@@ -2346,7 +2360,10 @@ impl<'a> Socket<'a> {
         let data_in_flight = self.remote_last_seq != self.local_seq_no;
 
         // If we want to send a SYN and we haven't done so, do it!
-        if matches!(self.state, State::SynSent | State::SynReceived) && !data_in_flight {
+        if (matches!(self.state, State::SynSent | State::SynReceived)
+            || self.syn_unacked_in_fin_wait)
+            && !data_in_flight
+        {
             return true;
         }
 
@@ -2436,6 +2453,10 @@ impl<'a> Socket<'a> {
     /// doubling the receive window. The Linux kernel implementation can be found at
     /// <https://elixir.bootlin.com/linux/v6.9.9/source/net/ipv4/tcp.c#L1472>.
     fn window_to_update(&self) -> bool {
+        // (a SYN|ACK cannot announce a scaled window, see SYN-RECEIVED below)
+        if self.syn_unacked_in_fin_wait {
+            return false;
+        }
         match self.state {
             // (Not in SYN-RECEIVED: the only segment that state can emit is a SYN|ACK, whose
             // window field is not scaled and therefore cannot announce more than 65535.)
@@ -2637,6 +2658,16 @@ impl<'a> Socket<'a> {
                     repr.sack_permitted = self.remote_has_sack;
                     repr.window_scale = self.remote_win_scale.map(|_| self.remote_win_shift);
                 }
+            }
+
+            // The SYN|ACK sent before `close()` was called in SYN-RECEIVED is still
+            // unacknowledged: it is what we (re)transmit, the FIN comes after it.
+            State::FinWait1 if self.syn_unacked_in_fin_wait => {
+                repr.control = TcpControl::Syn;
+                repr.seq_number = self.local_seq_no;
+                repr.window_len = u16::try_from(self.rx_buffer.window()).unwrap_or(u16::MAX);
+                repr.sack_permitted = self.remote_has_sack;
+                repr.window_scale = self.remote_win_scale.map(|_| self.remote_win_shift);
             }
 
             // We transmit data in all states where we may have data in the buffer,
